@@ -7,7 +7,7 @@
 // Symbolic per iterator type: the start handle s in [0, n] handed to the iterator constructor.
 #include "c05_common.h"
 
-enum { MAXIT = 26 };   // largest entity array handled (halfedges of a hexahedron / prism+pyramid: 24)
+enum { MAXIT = 26 };   // largest entity array handled (halfedges of a hexahedron: 24, of prism+pyramid: 26)
 
 struct VTr { typedef VertexHandle H; typedef VertexIter It;
   static It iter(const TopologyKernel &m) { return m.v_iter(); } static It begin(const TopologyKernel &m) { return m.vertices_begin(); }
